@@ -31,8 +31,8 @@ class Plugin(BasePlugin):
     explain_fn = 'c04_explain'
     quick_n = 3000
     thorough_n = 60000
-    FINDING_BITS = 1 | 2 | 4 | 8 | 16 | 32 | 64 | 128
-    UNDECIDED_BITS = 0
+    FINDING_BITS = 1 | 2 | 4 | 8 | 16 | 32 | 64 | 128 | 256 | 512 | 1024 | 2048 | 4096
+    UNDECIDED_BITS = 8192
     rule = ('one document (numbers, strings, booleans, nulls, arrays of scalars, arrays of sub-documents, '
             'a sub-document, a datetime; each field missing in 12% of the documents) x one type-directed '
             'expression tree of depth <= 3 over the modelled operators (4% of the sub-expressions of a '
